@@ -70,7 +70,9 @@ def main():
         run_sampler(V, 'Sampler/reordered-lists', 4, [[1, 2, 3, 4], [4, 3, 2, 1]], 5, constraint='Spread3')
 
     # ---- binding A: behaviours -> real function
-    emits = [('hist-single4', 4, [[1, 2, 3, 4]], 5, 4), ('hist-two-clients', 4, [[1, 2, 3], [2, 3, 4]], 3, 4 if tier != 'quick' else 3),
+    # lists of one and two candidates are the lower boundary of 'lists of 1..6 candidates' (a one-element list is still
+    # registered and counted)
+    emits = [('hist-single1', 1, [[1]], 2, 3), ('hist-single2', 2, [[1, 2]], 3, 4), ('hist-single4', 4, [[1, 2, 3, 4]], 5, 4), ('hist-two-clients', 4, [[1, 2, 3], [2, 3, 4]], 3, 4 if tier != 'quick' else 3),
              ('hist-duplicates', 3, [[1, 2, 2, 3]], 4, 3)]
     if tier != 'quick':
         emits.append(('hist-single6', 6, [[1, 2, 3, 4, 5, 6]], 7, 4))
@@ -159,7 +161,9 @@ def main():
     confs = [('target-only', dict(target_ranking_only='True', combination_number_upper_bound=3, heuristic='MI-numba-randomized'), 6),
              ('pairwise', dict(target_ranking_only='False', combination_number_upper_bound=5, heuristic='Constant'), 5),
              ('cap-above-list', dict(target_ranking_only='True', combination_number_upper_bound=50, heuristic='Constant'), 4),
-             ('interactions-target-only', dict(target_ranking_only='True', combination_number_upper_bound=4, interaction_order=2, heuristic='Constant'), 4)]
+             ('interactions-target-only', dict(target_ranking_only='True', combination_number_upper_bound=4, interaction_order=2, heuristic='Constant'), 4),
+             # two features: the interaction stage has exactly ONE candidate
+             ('interactions-single-candidate', dict(target_ranking_only='True', combination_number_upper_bound=3, interaction_order=2, heuristic='Constant'), 2)]
     if tier != 'quick':
         confs += [('pairwise-mi', dict(target_ranking_only='False', combination_number_upper_bound=7, heuristic='MI-numba-randomized'), 6),
                   ('cap-1', dict(target_ranking_only='True', combination_number_upper_bound=1, heuristic='Constant'), 5)]
